@@ -36,7 +36,9 @@ type pipeCase struct {
 	AB      int    `json:"ab"` // bytes written by the opener
 	BA      int    `json:"ba"` // bytes written by the acceptor
 	CloserA bool   `json:"closer_a"`
-	Slow    bool   `json:"slow"` // readers dawdle
+	Slow    bool   `json:"slow"`             // readers dawdle
+	SeqAB   int    `json:"seq_ab,omitempty"` // first sequence number opener -> acceptor (set on both ends)
+	SeqBA   int    `json:"seq_ba,omitempty"` // first sequence number acceptor -> opener
 }
 
 // tap copies src to dst through an unbounded queue and records the bytes.
@@ -111,7 +113,7 @@ func newPair() (*pair, error) {
 	go p.ab.run(a2, b2)
 	go p.ba.run(b2, a2)
 	var err error
-	p.sa, err = hx.NewReadySession(a1, stanza.NSClient, 0, jid.MustParse(localAddr), jid.MustParse(remoteAddr))
+	p.sa, err = hx.NewReadySession(a1, stanza.NSClient, 0, jid.MustParse(remoteAddr), jid.MustParse(localAddr)) // (location, origin): LocalAddr() is localAddr
 	if err != nil {
 		return nil, err
 	}
@@ -225,6 +227,12 @@ func (x *runner) runPipe(c pipeCase, origin string) {
 		x.res.Fail("C15/open/accept-missing", "the accepted stream never reaches Accept", k)
 		return
 	}
+	if c.SeqAB != 0 || c.SeqBA != 0 {
+		// both ends agree on where the numbering stands: the wrap-around at 65536
+		// is reached by writer and reader without 65536 packets
+		ca.VerifSetSeq(uint16(c.SeqAB), uint16(c.SeqBA))
+		cb.VerifSetSeq(uint16(c.SeqBA), uint16(c.SeqAB))
+	}
 	payAB, payBA := genBytes(r, c.AB), genBytes(r, c.BA)
 	var opsA, opsB []opJ
 	var gotA, gotB []byte
@@ -293,11 +301,12 @@ func (x *runner) runPipe(c pipeCase, origin string) {
 		name string
 		log  []wstanza
 		ops  []opJ
-	}{{"opener", p.ab.stanzas(), opsA}, {"acceptor", p.ba.stanzas(), opsB}} {
+		seq0 int
+	}{{"opener", p.ab.stanzas(), opsA, c.SeqAB}, {"acceptor", p.ba.stanzas(), opsB, c.SeqBA}} {
 		pk, _ := dataPackets(d.log, sid)
 		var terms []string
 		for i, q := range pk {
-			if q.Seq != strconv.Itoa(i%65536) {
+			if q.Seq != strconv.Itoa((d.seq0+i)%65536) {
 				x.res.Fail("C15/send/seq-not-consecutive", fmt.Sprintf("%s: packet %d carries seq %s", d.name, i, q.Seq), k)
 				break
 			}
@@ -305,11 +314,11 @@ func (x *runner) runPipe(c pipeCase, origin string) {
 				x.res.Fail("C15/send/wrong-carrier", fmt.Sprintf("%s: packet %d is carried by <%s/>, negotiated %s", d.name, i, q.Carrier, carrier), k)
 				break
 			}
-			terms = append(terms, "mkpkt "+coqN(i%65536)+" "+hx.CoqBytes([]byte(q.Data)))
+			terms = append(terms, "mkpkt "+coqN((d.seq0+i)%65536)+" "+hx.CoqBytes([]byte(q.Data)))
 		}
 		if len(terms) == len(pk) {
 			sk := kase{Kind: "pipe", Pipe: &c}
-			x.pc.Add(fmt.Sprintf("mkscase %s %s %s [%s] 0%%nat", coqN(c.BS), coqN(0), coqOps(d.ops), strings.Join(terms, "; ")), sk)
+			x.pc.Add(fmt.Sprintf("mkscase %s %s %s [%s] 0%%nat", coqN(c.BS), coqN(d.seq0), coqOps(d.ops), strings.Join(terms, "; ")), sk)
 		}
 	}
 }
@@ -330,6 +339,12 @@ func genPipe(r *hx.Rand, maxBytes int) pipeCase {
 		}
 	}
 	c.AB, c.BA = size(), size()
+	if r.Chance(1, 2) {
+		c.SeqAB = 65536 - 1 - r.Intn(4)
+	}
+	if r.Chance(1, 2) {
+		c.SeqBA = 65536 - 1 - r.Intn(4)
+	}
 	if c.AB > maxBytes {
 		c.AB = maxBytes
 	}
